@@ -164,7 +164,85 @@ pub fn run(thorough: bool, seed: u64) -> Vec<Violation> {
             }
         }
     }
+    resolver_laws_small(&mut out);
     out
+}
+
+/// C11 and C14 on small ranges whose bounds carry prerelease tags and build metadata, judged with the crate's own
+/// `satisfies` and `<` on the neighbourhood of every bound (including the same version with other build metadata):
+/// `min_version` / `max_satisfying` can be right by the specification while `satisfies` itself has moved.
+fn resolver_laws_small(out: &mut Vec<Violation>) {
+    let versions = ["1.2.3", "1.2.3+build.5", "1.0.0+a", "1.2.3-rc.1", "1.2.3-rc.1+b", "0.0.0+x", "2.0.0-0+z"];
+    let lowers = ["", ">", ">="];
+    let uppers = ["", "<", "<="];
+    let mut texts: Vec<String> = Vec::new();
+    for lo in versions {
+        for l in lowers {
+            for hi in versions {
+                for u in uppers {
+                    let t = match (l.is_empty(), u.is_empty()) {
+                        (true, true) => continue,
+                        (false, true) => format!("{}{}", l, lo),
+                        (true, false) => format!("{}{}", u, hi),
+                        (false, false) => format!("{}{} {}{}", l, lo, u, hi),
+                    };
+                    texts.push(t);
+                }
+            }
+        }
+    }
+    texts.sort();
+    texts.dedup();
+    let mut probes: Vec<Version> = Vec::new();
+    for v in versions {
+        let Ok(v) = Version::parse(v) else { continue };
+        for n in crate::gen::neighbours(&v) {
+            for b in [vec![], vec![nodejs_semver::Identifier::AlphaNumeric("a".into())], vec![nodejs_semver::Identifier::AlphaNumeric("build".into()), nodejs_semver::Identifier::Numeric(6)]] {
+                let mut w = n.clone();
+                w.build = b;
+                probes.push(w);
+            }
+        }
+    }
+    for t in &texts {
+        let Ok(r) = Range::parse(t) else { continue };
+        let mut report = |prop: &'static str, law: String, at: String| {
+            if out.iter().filter(|v| v.property == prop).count() < 5 {
+                out.push(Violation { property: prop, law, a: t.clone(), b: String::new(), at });
+            }
+        };
+        match r.min_version() {
+            Some(mv) => {
+                if !r.satisfies(&mv) {
+                    report("C11", "min_version does not satisfy the range".into(), mv.to_string());
+                } else if let Some(v) = probes.iter().find(|v| v.cmp(&&mv) == std::cmp::Ordering::Less && r.satisfies(v)) {
+                    report("C11", format!("a version below min_version {} satisfies", mv), v.to_string());
+                }
+            }
+            None => {
+                if let Some(v) = probes.iter().find(|v| r.satisfies(v)) {
+                    report("C11", "min_version is None but a version satisfies".into(), v.to_string());
+                }
+            }
+        }
+        let sat: Vec<&Version> = probes.iter().filter(|v| r.satisfies(v)).collect();
+        let got_max = r.max_satisfying(&probes);
+        let got_min = r.min_satisfying(&probes);
+        if let Some(g) = got_max {
+            if !r.satisfies(g) || sat.iter().any(|v| (*v).cmp(g) == std::cmp::Ordering::Greater) {
+                report("C14", "max_satisfying is not the greatest satisfying element".into(), g.to_string());
+            }
+        } else if !sat.is_empty() {
+            report("C14", "max_satisfying is None but an element satisfies".into(), sat[0].to_string());
+        }
+        if let Some(g) = got_min {
+            if !r.satisfies(g) || sat.iter().any(|v| (*v).cmp(g) == std::cmp::Ordering::Less) {
+                report("C14", "min_satisfying is not the least satisfying element".into(), g.to_string());
+            }
+        } else if !sat.is_empty() {
+            report("C14", "min_satisfying is None but an element satisfies".into(), sat[0].to_string());
+        }
+    }
 }
 
 pub fn to_json(vs: &[Violation]) -> String {
